@@ -98,14 +98,16 @@ CloseWith(h, o) ==
 \* intended: a stanza (bind and session included) from a connection that is not authenticated
 NotAuthorized(h) == CloseWith(h, <<E("streamerror")>>)
 
-\* an approved exchange completes: d->jid = user@domain, SASL: <success/>; SASL 2: <success/> with
-\* the address, an inline Bind 2 request binds a resource at once, then the stream features
-Accept(h, u, p2) ==
-    LET bind == c.ver = "sasl2" /\ c.b2
+\* an approved exchange completes: d->jid = user@domain.  fmt is the SASL version that answers:
+\* SASL: <success/>; SASL 2 (onSasl2Authenticated): <success/> with the address, an inline Bind 2
+\* request of the <authenticate/> that started the exchange binds a resource at once, then the
+\* stream features
+Accept(h, u, p2, fmt) ==
+    LET bind == fmt = "sasl2" /\ c.ver = "sasl2" /\ c.b2
         r2   == IF bind THEN B2Res ELSE ""
         c2   == [Idle(c) EXCEPT !.authed = u, !.res = r2]
     IN Step(h, c2, p2, IF bind THEN routes \cup {J(u, r2)} ELSE routes, approved \cup {u},
-            IF c.ver = "sasl2"
+            IF fmt = "sasl2"
             THEN <<El("success2", IF bind THEN "bound" ELSE "", J(u, r2)), El("features", "post", NoJ)>>
             ELSE <<E("success")>>,
             <<>>,
@@ -143,10 +145,12 @@ Auth(v, m, cr, b) ==
 (* --- <response/> ----------------------------------------------------------- *)
 Response(v, cr) ==
     LET h == [a |-> "Response", ver |-> v, cred |-> cr]
-        mine == c.st # "none" /\ c.ver = v
+        \* as built the namespace of a <response/> is not compared with that of the exchange it
+        \* continues; it only selects the format of an immediate answer
+        mine == c.st # "none"
     IN
     /\ c.phase = "open"
-    /\ CASE ~mine -> CloseWith(h, <<Fail(v)>>)                 \* response without (such an) exchange
+    /\ CASE ~mine -> CloseWith(h, <<Fail(v)>>)                 \* response without an exchange
          \* (an empty response makes the PLAIN object ask again, which the response branch treats as a failure)
          [] mine /\ c.st = "plainWait" /\ cr \in {"empty", "malformed"} -> CloseWith(h, <<Fail(v)>>)
          [] mine /\ c.st = "plainWait" /\ cr \notin {"empty", "malformed"} ->
@@ -162,7 +166,7 @@ Response(v, cr) ==
                 /\ Step(h, [c EXCEPT !.st = "digestCheck"],
                         Append(pending, [op |-> "digest", user |-> UserOf(cr), ok |-> Right(cr), stale |-> FALSE, ver |-> c.ver]),
                         routes, approved, <<>>, <<>>, <<>>)
-         [] mine /\ c.st = "digestFinal" -> Accept(h, c.xuser, pending)   \* client acknowledges rspauth
+         [] mine /\ c.st = "digestFinal" -> Accept(h, c.xuser, pending, v)   \* client acknowledges rspauth
 
 (* --- QXmppPasswordReply::finished ------------------------------------------ *)
 Reply(i) ==
@@ -173,7 +177,7 @@ Reply(i) ==
     /\ c.phase = "open"
     /\ i \in 1..Len(pending)
     /\ CASE e.stale -> Step(h, c, p2, routes, approved, <<>>, <<>>, <<>>)     \* intended: not this exchange's reply
-         [] ~e.stale /\ e.op = "check" /\ e.ok  -> Accept(h, e.user, p2)
+         [] ~e.stale /\ e.op = "check" /\ e.ok  -> Accept(h, e.user, p2, c.ver)
          [] ~e.stale /\ e.op = "check" /\ ~e.ok ->
                 Step(h, [Idle(c) EXCEPT !.phase = "closed"], p2, routes \ {J(c.authed, c.res)}, approved,
                      <<Fail(e.ver), E("close")>>, <<>>,
